@@ -55,7 +55,10 @@ LoopNets == <<
   Build(<<1, 4, 4>>, <<C3(1, "relu"), C3(1, "linear"), D(3, "linear", TRUE)>>),
   Build(<<1, 3, 3>>, <<T2(1), P2, D(2, "linear", FALSE)>>),
   Build(<<1, 4, 4>>, <<C3(1, "linear"), T3x(1, "relu"), C3(1, "relu")>>),
-  Build(<<1, 3, 5>>, <<C3(1, "relu"), T3x(1, "linear"), D(3, "linear", TRUE)>>)
+  Build(<<1, 3, 5>>, <<C3(1, "relu"), T3x(1, "linear"), D(3, "linear", TRUE)>>),
+  \* the loop STARTS with a max-pool layer and ends with the layer that is flattened for the dense head: in every iteration
+  \* after the first the max-pool layer receives its input as a flat vector
+  Build(<<1, 4, 4>>, <<P2, T2(1), D(2, "linear", FALSE)>>)
 >>
 
 \* feedback block record from its inner items, placed after output shape P
